@@ -178,4 +178,133 @@ def runFields (msg : List Byte) : List Field → Cursor → Option (List Slot ×
       | some (ss, c'') =>
         some ((match r with | some v => Slot.bitVal v | none => Slot.startsAt c.align) :: ss, c'')
 
+/-! ### a data type INSTANCE, re-used across calls
+
+The regulator-data schema keeps one `DataType` instance per field and unpacks into it again and
+again; `to_bytes()`, `.size`, `.value` then speak about whatever was constructed or unpacked
+last.  State of an instance: the value slot (`_value`, possibly unset) and the size slot
+(`_size`; for the fixed-width classes the observable `.size` is constant, which is what is
+kept here).  `VarBytes` / `VarString` build the length prefix of `to_bytes()` from the SIZE slot,
+not from the value — the one place where the two slots can disagree (after an unpack from a
+buffer shorter than its length prefix promises). -/
+
+structure InstCodec (α : Type) extends Codec α where
+  /-- `to_bytes()` of an instance holding value `v` and size slot `n` -/
+  packI : α → Nat → Option (List Byte)
+  /-- the value a default-constructed instance holds (`String()`, `VarBytes()`, `VarString()`: empty) -/
+  dflt : Option α
+  /-- `.size` of an instance that holds no value -/
+  emptySize : Nat
+
+structure Inst (α : Type) where
+  value : Option α
+  size : Nat
+
+inductive Op (α : Type) where
+  | construct (v : Option α)   -- `T(v)` / `T()`: a new instance takes the place of the old one
+  | toBytes
+  | unpack (d : List Byte)
+  | size
+  | value
+
+inductive Obs (α : Type) where
+  | done
+  | bytes (b : List Byte)
+  | size (n : Nat)
+  | value (v : α)
+  | raised
+deriving DecidableEq
+
+def Inst.new {α : Type} (c : InstCodec α) (v : Option α) : Inst α :=
+  match (match v with | some v => some v | none => c.dflt) with
+  | some v => ⟨some v, c.size v⟩
+  | none => ⟨none, c.emptySize⟩
+
+def Inst.step {α : Type} (c : InstCodec α) (s : Inst α) : Op α → Inst α × Obs α
+  | .construct v => (Inst.new c v, .done)
+  | .toBytes =>
+    match s.value with
+    | none => (s, .raised)
+    | some v => match c.packI v s.size with
+      | some b => (s, .bytes b)
+      | none => (s, .raised)
+  | .unpack d =>
+    match c.unpack d with
+    | some (v, n) => (⟨some v, n⟩, .done)
+    | none => (s, .raised)            -- every class raises before it assigns anything
+  | .size => (s, .size s.size)
+  | .value =>
+    match s.value with
+    | some v => (s, .value v)
+    | none => (s, .raised)
+
+def Inst.run {α : Type} (c : InstCodec α) : Inst α → List (Op α) → Inst α × List (Obs α)
+  | s, [] => (s, [])
+  | s, op :: ops =>
+    let r := s.step c op
+    let rest := Inst.run c r.1 ops
+    (rest.1, r.2 :: rest.2)
+
+def intInst (t : IntTy) : InstCodec Int :=
+  { intCodec t with packI := fun v _ => (intCodec t).pack v, dflt := none, emptySize := t.size }
+def bitsInst (k : Nat) : InstCodec Nat :=
+  { bitsCodec k with packI := fun v _ => (bitsCodec k).pack v, dflt := none, emptySize := k }
+def addrInst (k : Nat) : InstCodec (List Byte) :=
+  { addrCodec k with packI := fun v _ => (addrCodec k).pack v, dflt := none, emptySize := k }
+def stringInst : InstCodec (List Byte) :=
+  { stringCodec with packI := fun v _ => stringCodec.pack v, dflt := some [], emptySize := 1 }
+/-- `UnsignedChar(self.size - 1).to_bytes() + value` -/
+def varInst : InstCodec (List Byte) :=
+  { varCodec with
+    packI := fun v n => if n - 1 ≤ 255 then some ((n - 1).toUInt8 :: v) else none
+    dflt := some [], emptySize := 1 }
+
+/-- a bit array instance: the raw byte it holds (if any) and its position -/
+structure BitInst where
+  raw : Option Byte
+  idx : Nat
+deriving DecidableEq, Repr
+
+inductive BitOp where
+  | construct (v : Option Bool) (idx : Nat)   -- `BitArray(value, index)`
+  | unpack (d : List Byte)
+  | next (i : Nat)
+  | value
+  | size
+  | toBytes
+deriving Repr
+
+inductive BitObs where
+  | done
+  | nextIs (k : Nat)
+  | value (v : Bool)
+  | size (n : Nat)
+  | bytes (b : List Byte)
+  | raised
+deriving DecidableEq, Repr
+
+def BitInst.step (s : BitInst) : BitOp → BitInst × BitObs
+  | .construct v idx => (⟨v.map (fun b => if b then 1 else 0), idx⟩, .done)
+  | .unpack d =>
+    match bitUnpack d with
+    | some b => (⟨some b, s.idx⟩, .done)      -- the position is NOT touched by unpack
+    | none => (s, .raised)
+  | .next i => (⟨s.raw, i⟩, .nextIs (bitNext i))
+  | .value =>
+    match s.raw with
+    | some b => (s, .value (bitValue b s.idx))
+    | none => (s, .raised)
+  | .size => (s, .size (bitSize s.idx))
+  | .toBytes =>
+    match s.raw with
+    | some b => (s, .bytes (bitPack b))
+    | none => (s, .bytes [])
+
+def BitInst.run : BitInst → List BitOp → BitInst × List BitObs
+  | s, [] => (s, [])
+  | s, op :: ops =>
+    let r := s.step op
+    let rest := BitInst.run r.1 ops
+    (rest.1, r.2 :: rest.2)
+
 end PlumVerif.Types
